@@ -29,6 +29,12 @@ RULE = (
     "sources are, in 2 cases of 5, taken from a pool shared by every factory call of the lab (the user hands the same "
     "`other` observable to every call); half of those make every argument source HOT (classes shared-argument-sources, "
     "hot-argument-source). "
+    "Same-source dimension (checks op.*, connectable, compose; 1 case in 3): two or all three of the applications receive "
+    "the very SAME source object (after the per-source prefix stage, built once per source) - consecutively (op(xs); op(xs)) "
+    "or with an application to another source in between (op(xs); op(ys); op(xs)); with lazy application the order follows "
+    "the plan. Oracle unchanged: world FRESH makes a new factory call per APPLICATION, so the shared object must behave like "
+    "two fresh operator objects applied to that source (classes same-source, same-source-consecutive, "
+    "same-source-application-between, computed from the real application order). "
     "Check `to_future`: ops.to_future(default | asyncio.Future | concurrent.futures.Future constructor) - an operator object "
     "whose applications return Futures - applied to 2-3 sources in 1-3 groups, each group either inside its own "
     "asyncio.run() (a different running event loop per group) or with no running loop, optional cancel of the future; "
@@ -50,6 +56,7 @@ ASSUMPTIONS = [
     "auxiliary sources inside operator arguments are either created per factory call - then they are cold/synchronous (hot specs re-read as cold), because ONE shares a cold object that FRESH duplicates, which is behaviourally neutral only for cold sources - or pooled so that every factory call of both worlds receives the same objects, in which case hot ones are sound and generated",
     "to_future is treated as in scope: it is an operator factory exported by reactivex.operators and used in pipe(); the statement's 'no ... other state leak from one application to another' applies although the application yields a Future; deterministic single-threaded asyncio only (asyncio.run per group, virtual-time sources), and for 'no running loop' groups a fresh non-running current loop is installed so process-global asyncio policy state cannot differ between the two worlds",
     "auto_connect is a ConnectableObservable method, not an operator function object; multicast(subject_factory=...) without a mapper is not a valid call (the implementation asserts the mapper); do(observer)/multicast(subject) take a user-owned stateful object (an Observer stops after its first terminal), which the statement's quantifier excludes - none of these is generated",
+    "applying one operator object twice to the same source object is in scope: the statement's closing clause ('no elements, subscriber counts, subjects or other state leak from one application to another') ranges over applications, and a source listed twice is still 'a fresh operator for each' listed source; the quantifier's 'independent sources' describes the sampled domain, which is extended here, not the claim. while_do/do_while are not generated with a repeated source because the harness condition counts per source object (user state that ONE would share and FRESH would not)",
     "while_do/do_while use a condition whose counter is keyed by the source it is given (user state per source, identical in both worlds) instead of the grammar's per-factory counter; window_when/buffer_when use a single closing timeline so the grammar's call counter is irrelevant",
     "everything still subscribed at tick 150 is disposed in both worlds; runs are discarded as inconclusive and counted when the scheduler dequeues >=95 items without advancing its clock (spin bump, C29), the work budget is exceeded, the Python stack exceeds 400 frames or a RecursionError shows up in a trace, or the FRESH world lets an exception escape the scheduler",
 ]
@@ -147,7 +154,8 @@ def _world(case, one, make_ops, inp="any"):
     """make_ops(lab) -> operator function (one factory call). Returns dict with lab, probes, source groups."""
     lab = Lab()
     guard_all(lab)
-    n = len(case["srcs"])
+    smap = _srcmap(case)  # application index -> primary source index (identity unless the case re-applies to one source)
+    n = len(smap)  # number of applications
     prim = [lab.source(s) for s in case["srcs"]]
     mark = len(lab.sources)
     aux = []  # per factory call: list of aux sources
@@ -162,12 +170,21 @@ def _world(case, one, make_ops, inp="any"):
             fs.append(make_ops(lab))
             aux.append(lab.sources[m0:])
     nbuild = len(lab.sources)
-    pres = [_prefix(lab, i, inp, case.get("pre")) for i in range(n)]
+    pres = [_prefix(lab, k, inp, case.get("pre")) for k in range(len(prim))]
+    prefixed = [None] * len(prim)
     applied = [None] * n
+    order = []  # applications in the order they really happened (lazy application follows the plan)
+
+    def psrc(k):
+        # one object per primary source: applications mapped to the same primary receive the very same source object
+        if prefixed[k] is None:
+            prefixed[k] = pres[k](prim[k])
+        return prefixed[k]
 
     def app(i):
         if applied[i] is None:
-            applied[i] = fs[i](pres[i](prim[i]))
+            order.append(i)
+            applied[i] = fs[i](psrc(smap[i]))
         return applied[i]
 
     if not case.get("lazy"):
@@ -206,7 +223,31 @@ def _world(case, one, make_ops, inp="any"):
 
     lab.at(HORIZON, horizon)
     lab.run()
-    return {"lab": lab, "probes": probes, "prim": prim, "aux": aux, "runtime": lab.sources[nbuild:]}
+    return {"lab": lab, "probes": probes, "prim": prim, "aux": aux, "runtime": lab.sources[nbuild:], "order": order}
+
+
+def _srcmap(case):
+    m = case.get("srcmap")
+    k = len(case["srcs"])
+    if m is None:
+        return list(range(k))
+    if not m or any(not isinstance(x, int) or x < 0 or x >= k for x in m) or set(m) != set(range(k)):
+        raise HarnessError(f"srcmap {m} for {k} sources")
+    return list(m)
+
+
+def _same_source_classes(case, order):
+    """Classes of the same-source dimension, from the order in which the applications really happened."""
+    smap = _srcmap(case)
+    seq = [smap[i] for i in order]
+    out = []
+    if len(set(smap)) < len(smap):
+        out.append("same-source")
+    if any(a == b for a, b in zip(seq, seq[1:])):
+        out.append("same-source-consecutive")
+    if any(seq[p] == seq[q] and any(x != seq[p] for x in seq[p + 1 : q]) for p in range(len(seq)) for q in range(p + 2, len(seq))):
+        out.append("same-source-application-between")
+    return out
 
 
 def _judge(case, make_ops, culprit, cls, inp="any"):
@@ -220,7 +261,9 @@ def _judge(case, make_ops, culprit, cls, inp="any"):
         return SKIP(O["lab"].inconclusive)
     if runaway([norm_tree(p, 0) for p in F["probes"] + O["probes"]]):
         return SKIP("recursion")
-    cls = list(cls)
+    cls = list(cls) + _same_source_classes(case, F["order"])
+    if F["order"] != O["order"]:
+        raise HarnessError("application order diverged between worlds")
     n = len(case["srcs"])
     # non-trivial: two applications active over overlapping tick ranges, each delivering >= 1 on_next (FRESH world)
     spans = {}
@@ -319,6 +362,23 @@ def _plan(n, connects):
     return _p()
 
 
+@st.composite
+def _apps_and_srcs(draw, alias_ok=True):
+    """Applications and the primary sources they are applied to.  2 of 3: every application has its own independent
+    source.  1 of 3: two (or all three) applications receive the SAME source object - consecutively ([0,0], [0,0,1],
+    [1,0,0], [0,0,0]) or with an application to another source in between ([0,1,0]); with lazy application the real
+    order follows the plan, so both orders arise from every pattern."""
+    if draw(st.integers(0, 2)) > 0 or not alias_ok:
+        n = draw(st.integers(2, 3))
+        smap = None
+        k = n
+    else:
+        smap = draw(st.sampled_from([[0, 0], [0, 0], [0, 0, 1], [1, 0, 0], [0, 1, 0], [0, 1, 0], [0, 0, 0]]))
+        n = len(smap)
+        k = max(smap) + 1
+    return n, smap, [draw(_prim) for _ in range(k)]
+
+
 BUILD_OS = {"merge", "concat", "zip", "combine_latest", "with_latest_from", "fork_join"}  # "os" = build-time sources
 
 
@@ -359,8 +419,12 @@ def _ops_cases(name):
     def _c(draw):
         share = draw(st.sampled_from([0, 0, 0, 1, 2]))  # 0: fresh cold aux per factory call; 1: pooled as drawn; 2: pooled, all hot
         args = _fix_args(name, draw(o.args), share)
-        n = draw(st.integers(2, 3))
-        case = {"op": name, "args": args, "share_aux": share, "srcs": [draw(_prim) for _ in range(n)], "plan": draw(_plan(n, False)), "lazy": draw(st.booleans()), "inner": draw(st.sampled_from(["now", "now", "late"]))}
+        # while_do/do_while: the harness condition counts per source OBJECT (user state), so two applications to one
+        # source object would share the user's counter in world ONE only - not operator state; not generated
+        n, smap, srcs = draw(_apps_and_srcs(alias_ok=name not in LOCAL))
+        case = {"op": name, "args": args, "share_aux": share, "srcs": srcs, "plan": draw(_plan(n, False)), "lazy": draw(st.booleans()), "inner": draw(st.sampled_from(["now", "now", "late"]))}
+        if smap is not None:
+            case["srcmap"] = smap
         if o.inp == "obs":
             case["pre"] = draw(s_inners(("cold", "cold", "sync")))
         return case
@@ -418,9 +482,12 @@ def _run_conn(case):
 @st.composite
 def _conn_cases(draw):
     form = draw(st.sampled_from(sorted(CONN_FORMS)))
-    n = draw(st.integers(2, 3))
+    n, smap, srcs = draw(_apps_and_srcs())
     explicit = "ref_count" not in form
-    return {"form": form, "args": draw(CONN_FORMS[form]), "srcs": [draw(_prim) for _ in range(n)], "plan": draw(_plan(n, explicit)), "lazy": draw(st.booleans()), "inner": "now"}
+    case = {"form": form, "args": draw(CONN_FORMS[form]), "srcs": srcs, "plan": draw(_plan(n, explicit)), "lazy": draw(st.booleans()), "inner": "now"}
+    if smap is not None:
+        case["srcmap"] = smap
+    return case
 
 
 # ---------------------------------------------------------------------------------------
@@ -461,8 +528,11 @@ def _compose_cases(draw):
     share = draw(st.sampled_from([0, 0, 0, 1, 2]))
     pc = draw(pipelines(max_ops=3, min_ops=1, roots=["single"], max_len=1))
     chain = [[n, _fix_args(n, a, share)] for n, a in pc["ops"]]
-    n = draw(st.integers(2, 3))
-    return {"kind": draw(st.sampled_from(COMPOSE_KINDS)), "chain": chain, "share_aux": share, "srcs": [draw(_prim) for _ in range(n)], "plan": draw(_plan(n, False)), "lazy": draw(st.booleans()), "inner": "now"}
+    n, smap, srcs = draw(_apps_and_srcs(alias_ok=not any(nm in LOCAL for nm, _ in chain)))
+    case = {"kind": draw(st.sampled_from(COMPOSE_KINDS)), "chain": chain, "share_aux": share, "srcs": srcs, "plan": draw(_plan(n, False)), "lazy": draw(st.booleans()), "inner": "now"}
+    if smap is not None:
+        case["srcmap"] = smap
+    return case
 
 
 # ---------------------------------------------------------------------------------------
